@@ -847,3 +847,289 @@ def string_len(ex, st, info, args):
 @B.path('u32::from_str_radix')
 def from_str_radix(ex, st, info, args):
     raise ExecError('from_str_radix is not modelled (ICAO::from_str is checked with Kani)')
+
+
+# ------------------------------------------------------------------------------------------ more Option/Result
+@B.path('Result::unwrap_or', 'Option::unwrap_or')
+def unwrap_or(ex, st, info, args):
+    v, d = args
+    return v.f[0] if v.variant in ('Ok', 'Some') else d
+
+
+@B.path('Result::unwrap_or_default', 'Option::unwrap_or_default')
+def unwrap_or_default(ex, st, info, args):
+    v = args[0]
+    if v.variant in ('Ok', 'Some'):
+        return v.f[0]
+    tys = self_generic_args_of_path(info)
+    t = tys[0].strip() if tys else ''
+    if t in INT_TYPES:
+        return Int(t, 0)
+    if t == 'bool':
+        return False
+    if t in FLOAT_TYPES:
+        return mk_flt(t, 0.0)
+    raise ExecError('unwrap_or_default for ' + t)
+
+
+def self_generic_args_of_path(info):
+    gs = info.get('allgenerics') or []
+    return generic_args(gs[0]) if gs else []
+
+
+@B.path('Result::unwrap_or_else', 'Option::unwrap_or_else')
+def unwrap_or_else(ex, st, info, args):
+    v, f = args
+    if v.variant in ('Ok', 'Some'):
+        return v.f[0]
+    if v.variant == 'Err':
+        return call_fn(f, [v.f[0]], lambda st2, r: r)
+    return call_fn(f, [], lambda st2, r: r)
+
+
+@B.path('Option::ok_or')
+def option_ok_or(ex, st, info, args):
+    v, e = args
+    return mk_ok(v.f[0]) if v.variant == 'Some' else mk_err(e)
+
+
+@B.path('Option::map_or')
+def option_map_or(ex, st, info, args):
+    v, d, f = args
+    if v.variant == 'None':
+        return d
+    return call_fn(f, [v.f[0]], lambda st2, r: r)
+
+
+@B.path('Option::or')
+def option_or(ex, st, info, args):
+    v, o = args
+    return v if v.variant == 'Some' else o
+
+
+@B.path('Option::filter')
+def option_filter(ex, st, info, args):
+    v, f = args
+    if v.variant == 'None':
+        return v
+    cell_v = v
+
+    def after(st2, r):
+        if isinstance(r, bool):
+            return cell_v if r else NONE
+        return Choices([(r, lambda s3: cell_v), (z3.Not(r), lambda s3: NONE)])
+    return call_fn(f, [Ref(('V', v.f[0]))], after)
+
+
+@B.path('Option::is_some_and')
+def option_is_some_and(ex, st, info, args):
+    v, f = args
+    if v.variant == 'None':
+        return False
+    return call_fn(f, [v.f[0]], lambda st2, r: r)
+
+
+@B.path('Result::is_err')
+def result_is_err(ex, st, info, args):
+    return deref_all(ex, st, args[0]).variant == 'Err'
+
+
+@B.path('Result::and_then')
+def result_and_then(ex, st, info, args):
+    v, f = args
+    if v.variant == 'Err':
+        return v
+    return call_fn(f, [v.f[0]], lambda st2, r: r)
+
+
+@B.path('Option::copied', 'Option::cloned')
+def option_copied(ex, st, info, args):
+    v = args[0]
+    if v.variant == 'None':
+        return v
+    return mk_some(deref_all(ex, st, v.f[0]))
+
+
+@B.path('Option::take')
+def option_take(ex, st, info, args):
+    r = args[0]
+    v = ex.read_ref(st, r)
+    ex.write_ref(st, r, NONE)
+    return v
+
+
+# ------------------------------------------------------------------------------------------ integer methods
+def _int_method(name):
+    def deco(fn):
+        for t in INT_TYPES:
+            B.paths['%s::%s' % (t, name)] = fn
+        B.paths['num::%s' % name] = fn
+        return fn
+    return deco
+
+
+def _checked(op):
+    def f(ex, st, info, args):
+        a, b = args
+        r = int_binop(op + 'WithOverflow', a, b)
+        val, ov = r.f
+        if isinstance(ov, bool):
+            return NONE if ov else mk_some(val)
+        return Choices([(z3.Not(ov), lambda s2: mk_some(val)), (ov, lambda s2: NONE)])
+    return f
+
+
+_int_method('checked_add')(_checked('Add'))
+_int_method('checked_sub')(_checked('Sub'))
+_int_method('checked_mul')(_checked('Mul'))
+
+
+def _wrapping(op):
+    def f(ex, st, info, args):
+        return int_binop(op, args[0], args[1])
+    return f
+
+
+_int_method('wrapping_add')(_wrapping('Add'))
+_int_method('wrapping_sub')(_wrapping('Sub'))
+_int_method('wrapping_mul')(_wrapping('Mul'))
+
+
+def _saturating(op):
+    def f(ex, st, info, args):
+        a, b = args
+        w, s = INT_TYPES[a.ty]
+        lo, hi = (-(1 << (w - 1)), (1 << (w - 1)) - 1) if s else (0, (1 << w) - 1)
+        r = int_binop(op + 'WithOverflow', a, b)
+        val, ov = r.f
+        if isinstance(ov, bool):
+            if not ov:
+                return val
+            if not s:
+                return Int(a.ty, hi if op != 'Sub' else lo)
+            raise ExecError('signed saturating op')
+        if s:
+            raise ExecError('signed saturating op')
+        sat = Int(a.ty, hi if op != 'Sub' else lo)
+        return ite_value(ov, sat, val)
+    return f
+
+
+_int_method('saturating_add')(_saturating('Add'))
+_int_method('saturating_sub')(_saturating('Sub'))
+_int_method('saturating_mul')(_saturating('Mul'))
+
+
+@_int_method('checked_div')
+def checked_div(ex, st, info, args):
+    a, b = args
+    if b.concrete:
+        return NONE if b.v == 0 else mk_some(int_binop('Div', a, b))
+    z = to_bv(b) == 0
+    return Choices([(z, lambda s2: NONE), (z3.Not(z), lambda s2: mk_some(int_binop('Div', a, b)))])
+
+
+@_int_method('abs')
+def int_abs(ex, st, info, args):
+    a = args[0]
+    if a.concrete:
+        return mk_int(a.ty, abs(a.v))
+    x = a.v
+    return mk_int(a.ty, z3.If(x < 0, -x, x))
+
+
+@_int_method('signum')
+def int_signum(ex, st, info, args):
+    a = args[0]
+    if a.concrete:
+        return Int(a.ty, (a.v > 0) - (a.v < 0))
+    w, _ = INT_TYPES[a.ty]
+    x = a.v
+    return mk_int(a.ty, z3.If(x > 0, z3.BitVecVal(1, w), z3.If(x < 0, z3.BitVecVal(-1, w), z3.BitVecVal(0, w))))
+
+
+@_int_method('pow')
+def int_pow(ex, st, info, args):
+    a, e = args
+    n = concrete_usize(e, 'exponent')
+    r = Int(a.ty, 1)
+    for _ in range(n):
+        t = int_binop('MulWithOverflow', r, a)
+        if t.f[1] is True:
+            return Panic('attempt to multiply with overflow')
+        if t.f[1] is not False:
+            raise ExecError('symbolic pow overflow')
+        r = t.f[0]
+    return r
+
+
+@_int_method('min')
+def int_min(ex, st, info, args):
+    return cmp_min(ex, st, info, args)
+
+
+@_int_method('max')
+def int_max(ex, st, info, args):
+    return cmp_max(ex, st, info, args)
+
+
+@_int_method('from_be_bytes')
+def from_be_bytes(ex, st, info, args):
+    from .deku_bi import bytes_to_int
+    ty = info['path'].split('::')[-2]
+    return bytes_to_int(list(args[0].e), ty, False)
+
+
+@_int_method('from_le_bytes')
+def from_le_bytes(ex, st, info, args):
+    from .deku_bi import bytes_to_int
+    ty = info['path'].split('::')[-2]
+    return bytes_to_int(list(args[0].e), ty, True)
+
+
+@_int_method('to_le_bytes')
+def to_le_bytes(ex, st, info, args):
+    r = to_be_bytes(ex, st, info, args)
+    return Arr(tuple(reversed(r.e)))
+
+
+@_int_method('to_be_bytes')
+def to_be_bytes2(ex, st, info, args):
+    return to_be_bytes(ex, st, info, args)
+
+
+@_int_method('count_ones')
+def count_ones(ex, st, info, args):
+    a = args[0]
+    w, _ = INT_TYPES[a.ty]
+    if a.concrete:
+        return Int('u32', bin(a.v & ((1 << w) - 1)).count('1'))
+    x = a.v
+    acc = z3.BitVecVal(0, 32)
+    for i in range(w):
+        acc = acc + z3.ZeroExt(31, z3.Extract(i, i, x))
+    return mk_int('u32', acc)
+
+
+@_int_method('rem_euclid')
+def rem_euclid(ex, st, info, args):
+    a, b = args
+    if a.concrete and b.concrete:
+        if b.v == 0:
+            return Panic('attempt to calculate the remainder with a divisor of zero')
+        return mk_int(a.ty, a.v % abs(b.v))
+    w, s = INT_TYPES[a.ty]
+    if not s:
+        return int_binop('Rem', a, b)
+    x, y = to_bv(a), to_bv(b)
+    r = z3.SRem(x, y)
+    return mk_int(a.ty, z3.If(r < 0, z3.If(y < 0, r - y, r + y), r))
+
+
+@_int_method('is_power_of_two')
+def is_power_of_two(ex, st, info, args):
+    a = args[0]
+    if a.concrete:
+        return a.v > 0 and (a.v & (a.v - 1)) == 0
+    x = a.v
+    return mk_bool(z3.And(x != 0, (x & (x - 1)) == 0))
